@@ -332,6 +332,26 @@ func (st *State) BitsOf(v *IntV) []Bit {
 	if s, ok := t.SingleSym(); ok {
 		return st.symBits(s, v.W)
 	}
+	// 2^k * s (no bit shifted out): the bits of s, shifted — the same view a left shift produces
+	if len(t.Syms) == 1 && t.C == 0 && t.Coefs[0] > 1 {
+		if k, p2 := isPow2(t.Coefs[0]); p2 {
+			s := t.Syms[0]
+			lo, hi := st.SymRange(s)
+			_, tmax := typeRange(v.W, v.Signed)
+			if lo >= 0 && k < 62 && hi <= tmax>>uint(k) {
+				sb := st.symBits(s, v.W)
+				out := make([]Bit, v.W)
+				for i := range out {
+					if i < k {
+						out[i] = Bit{K: B0}
+					} else {
+						out[i] = sb[i-k]
+					}
+				}
+				return out
+			}
+		}
+	}
 	// derived symbol for the term
 	d := st.ex.syms.Get("("+t.String()+")", v.W, v.Signed)
 	d.DefTerm = t
